@@ -15,7 +15,7 @@
                                       pops the fiber's LAST handler; truncates stack and frames; jumps to catch_ip
               fn end_finally_impl     `if self.handling_exception { self.unwind_stack()?; }` then take_return_data
               fn jump_finally_impl    new ip = handler.finally_ip
-              fn throw_impl           sets handling_exception = true, then unwind_stack
+              fn throw_impl           calls unwind_stack (the flag it sets first is overwritten there: not required)
 Renaming variables or re-formatting keeps the output; adding/dropping one of these emits or changing an operand
 changes a constant that props/C08.v compares (by computation) with the configuration the theorems are proved for."""
 import os
@@ -164,8 +164,8 @@ def unwind_shape(toks, otoks):
     # push_exc_handler records the current heights
     qo, qc = fn_body(otoks, "push_exc_handler")
     qt = texts(otoks, qo, qc)
-    records = has(qt, ["init_stack_size", ":", "self", ".", "stack", ".", "len", "(", ")"]) and \
-        has(qt, ["frame_count", ":", "self", ".", "frames", ".", "len", "(", ")"])
+    records = has(qt, ["init_stack_size", ":", "self", ".", "stack", ".", "len", "(", ")", ","]) and \
+        has(qt, ["frame_count", ":", "self", ".", "frames", ".", "len", "(", ")", ","])
     return he_is_no_catch, innermost, trunc_frames and trunc_stack and to_catch and pushes_exc, records
 
 
@@ -191,7 +191,8 @@ def jump_finally_shape(toks):
 def throw_shape(toks):
     o, c = fn_body(toks, "throw_impl")
     t = texts(toks, o, c)
-    return has(t, ["handling_exception", "=", "true"]) and has(t, ["self", ".", "unwind_stack", "(", ")"])
+    # `handling_exception = true` before the call is dead (unwind_stack overwrites the flag or ends the run): not required
+    return has(t, ["self", ".", "unwind_stack", "(", ")"])
 
 
 def push_handler_shape(toks):
@@ -237,7 +238,7 @@ def gen_tryarms(man):
         ("gen_end_finally_rethrows", rethrows),
         ("gen_end_finally_resumes_return", resumes),
         ("gen_jump_finally_targets_finally", jf_ok),
-        ("gen_throw_sets_flag_and_unwinds", thr_ok),
+        ("gen_throw_unwinds", thr_ok),
         ("gen_push_handler_offsets", push_ok),
     ]
     lines = ["(* GENERATED by translator/translate_c08.py from compiler.rs, vm.rs, object.rs - do not edit *)", ""]
